@@ -89,6 +89,13 @@ class NoneObject:
     def __len__(self):
         return 0
 
+    def __getattr__(self, attr):
+        # An attribute of a missing field is missing as well (``r.missing.name == 'x'`` is False, as it already
+        # is in the interpreted Selector), instead of an AttributeError that ends the whole stream.
+        if attr.startswith("__"):
+            raise AttributeError(attr)
+        return self
+
 
 NONE_OBJECT = NoneObject()
 
